@@ -585,7 +585,14 @@ class SortingCollector(Collector):
 
     def results(self):
         items = self.items
-        items.sort(reverse=self.reverse)
+        try:
+            items.sort(reverse=self.reverse)
+        except TypeError:
+            # Some documents have no key (None), which Python 3 can't compare
+            # to the keys of the other documents
+            none_first = sorting.none_first
+            items.sort(key=lambda x: (none_first(x[0]), x[1]),
+                       reverse=self.reverse)
         if self.limit:
             items = items[:self.limit]
         return self._results(items, docset=self.docset)
